@@ -1558,6 +1558,13 @@ func (c *qc) evalSingles() {
 		if got.ContentHash == nil {
 			continue
 		}
+		if got.ContentHash.Validate() != nil {
+			// a record anchored by an earlier binary (it can only come with a genesis file): its content
+			// hash is not a valid ARGUMENT of a by-hash query today, so only the by-IRI queries are
+			// required to reach it
+			c.legacyHashes++
+			continue
+		}
 		c.single("data/ConvertHashToIRI", iri, true, iri, "", func() (string, error) {
 			var r data.ConvertHashToIRIResponse
 			if err := c.q(pData+"ConvertHashToIRI", &data.ConvertHashToIRIRequest{ContentHash: got.ContentHash}, &r); err != nil {
